@@ -21,6 +21,7 @@ scale:    besides "all small inputs" a seeded family of CHAINS OF GADGETS (spec/
 """
 import math
 import random
+import time
 
 import numpy as np
 
@@ -250,8 +251,33 @@ def chain_matrix(lib, seq):
     return A
 
 
+_BLAS_SET = []
+
+
+def single_thread_blas():
+    """best effort, worker processes only: 16 workers x a multi-threaded matrix product per call
+    make the matrix-power routine 50x slower on a busy machine; the values do not depend on it"""
+    if _BLAS_SET:
+        return
+    _BLAS_SET.append(1)
+    try:
+        import ctypes
+        import glob
+        import os
+        for lib in glob.glob(os.path.join(os.path.dirname(np.__file__), "..", "numpy.libs", "libscipy_openblas*.so*")):
+            h = ctypes.CDLL(lib)
+            for name in ("scipy_openblas_set_num_threads64_", "scipy_openblas_set_num_threads",
+                         "openblas_set_num_threads64_", "openblas_set_num_threads"):
+                if hasattr(h, name):
+                    getattr(h, name)(1)
+                    break
+    except Exception:
+        pass
+
+
 def exec_chain(job):
     import bct
+    single_thread_blas()
     fn = job["fn"]
     A0 = chain_matrix(job["lib"], job["seq"])
     n = len(A0)
@@ -401,6 +427,10 @@ def chain_families(rng, quick):
     for lo, hi in ([(16, 20), (36, 45)] if quick else [(16, 20), (36, 45), (60, 70), (82, 90), (120, 130)]):
         # (one-way chains: no closed walks, the matrix-power routine's walk counts ARE the path counts)
         out.append(("triple-routes", rep(g_bundle(3, rng.random() < 0.4, rng.random() < 0.5), rng.randint(lo, hi))))
+    #     w^K > 2^64 tied paths on a chain short enough for the matrix-power routine (w = 4..6 routes)
+    for _ in range(1 if quick else 3):
+        w = rng.choice([4, 5, 6])
+        out.append(("many-routes", rep(g_bundle(w, und()), int(64 / math.log2(w)) + rng.randint(2, 5))))
     # (c) long paths: node counts beyond int8 / uint8 (and int16-sized products n*n)
     for lo, hi in ([(130, 150), (257, 270)] if quick else [(128, 129), (130, 160), (200, 256), (257, 300), (330, 400)]):
         u = und()
@@ -505,7 +535,7 @@ def build_scale_jobs(ctx):
     rng = random.Random("C08-scale-%s" % ctx.seed)
     jobs = []
     for name, chain in chain_families(rng, ctx.quick):
-        jobs += chain_jobs(rng, name, chain, 6e8 if ctx.quick else 4e9)
+        jobs += chain_jobs(rng, name, chain, 2e9 if ctx.quick else 1.5e10)
     return jobs
 
 
@@ -523,8 +553,8 @@ def run(ctx):
     # composition operator of the scale regime = definitions (E) / (D) on small chains
     ctx.mc("MC_BetweennessChain.tla", "MC_BetweennessChain_quick.cfg")
     if not q:
-        ctx.mc("MC_BetweennessChain.tla", "MC_BetweennessChain_pairs.cfg")
-        ctx.mc("MC_BetweennessChain.tla", "MC_BetweennessChain_triples.cfg")
+        ctx.parallel([lambda: ctx.mc("MC_BetweennessChain.tla", "MC_BetweennessChain_pairs.cfg", workers=8),
+                      lambda: ctx.mc("MC_BetweennessChain.tla", "MC_BetweennessChain_triples.cfg", workers=8)], width=2)
     ctx.mc("MC_Brandes.tla", "MC_Brandes_dir.cfg")
     ctx.mc("MC_Brandes.tla", "MC_Brandes_und.cfg")
     ctx.mc("MC_BrandesPower.tla", "MC_BrandesPower_dir.cfg" if q else "MC_BrandesPower_dir_thorough.cfg")
@@ -537,13 +567,23 @@ def run(ctx):
     verdicts = ctx.validate(*TRACE, recs, chunk=8000)
     # scale regime: few, large inputs; their own time limit and validation batch
     sjobs = build_scale_jobs(ctx)
-    srecs = pool.run_jobs(__name__, sjobs, limit=240.0)
+    t0 = time.time()
+    # (the input on which the walk counts pass the largest double goes last, with a limit of its own:
+    # a routine that spins on it must not hold up the tier)
+    late = [k for k, j in enumerate(sjobs) if j["src"].endswith("beyond-1e308") and j["fn"] == "betweenness_bin"]
+    sjobs = [j for k, j in enumerate(sjobs) if k not in late] + [sjobs[k] for k in late]
+    cut = len(sjobs) - len(late)
+    srecs = pool.run_jobs(__name__, sjobs[:cut], limit=240.0 if q else 900.0)
+    if late:
+        srecs += pool.run_jobs(__name__, sjobs[cut:], limit=150.0)
+    core.log("  scale regime: %d calls on chains of %d..%d nodes %.1fs" % (
+        len(sjobs), min(j["n"] for j in sjobs), max(j["n"] for j in sjobs), time.time() - t0))
     sverd = ctx.validate(*TRACE, srecs, tag="Trace_Betweenness_scale", chunk=400)
     bad = [(j["src"], v[0]) for j, r, v in zip(sjobs, srecs, sverd) if v[0].startswith("skip:") and not r.get("timeout")]
     if bad:
         raise core.MachineryError("scale-regime records outside the spec's domain: %r" % bad[:3])
     ctx.extra["scale_regime"] = dict(
-        records=len(sjobs), no_return_within_240s=["%s(n=%d) %s" % (j["src"], j["n"], j["fn"])
+        records=len(sjobs), no_return_within_limit=["%s(n=%d) %s" % (j["src"], j["n"], j["fn"])
                                                     for j, r in zip(sjobs, srecs) if r.get("timeout")],
         max_nodes=max(j["n"] for j in sjobs),
         families=sorted(set(j["src"] for j in sjobs)),
@@ -603,7 +643,7 @@ def run(ctx):
 
 def replay(ctx, rp):
     job = rp["job"]
-    recs = pool.run_jobs(__name__, [job])
+    recs = pool.run_jobs(__name__, [job], limit=240.0)
     verdicts = ctx.validate(*TRACE, recs)
     core.log("replay verdict:", verdicts[0], what(job, recs[0], verdicts[0][0]))
     ctx.judge([job], recs, verdicts, what)
